@@ -99,6 +99,65 @@ def run(index, rep):
     rep.guard(nomut, index, rep)
     rep.guard(override, index, rep)
     rep.guard(keys, index, rep, setters, disp)
+    rep.guard(data_setters, index, rep)
+
+
+# ------------------------------------------------------------------------------------------ C13.DATA
+
+# country-specific nuclear-winter options: the yearly production ratio is 1 + the country row's yearly change (README: "based on
+# country-specific nuclear winter estimates"), year by year - nothing capped, scaled or shifted
+DATA_SETTERS = (
+    ("set_nuclear_winter_country_disruption_to_crops", "RATIO_CROPS_YEAR", "crop_reduction_year", 11),
+    ("set_country_grasses_nuclear_winter", "RATIO_GRASSES_YEAR", "grasses_reduction_year", 10),
+)
+
+
+def data_setters(index, rep):
+    from .symx import Interp, Obj, Path, PDict, Unsupported, explore, Abort
+    from .rat import Rat, K
+    rule = "C13.DATA"
+    cls = index.cls(SCEN, "Scenarios")
+    for name, prefix, column, last in DATA_SETTERS:
+        fn = index.func(SCEN, "Scenarios." + name)
+        init = index.func(SCEN, "Scenarios.__init__")
+        flags = {dotted(st.targets[0])[5:]: False for st in init.body if isinstance(st, ast.Assign) and (dotted(st.targets[0]) or "").endswith("_SET")}
+
+        def runit(it, fn=fn):
+            it.classes = {"Scenarios": cls}
+            it.opaque_calls = True
+
+            def hook(interp, d, a, kw, node):
+                if d in ("float", "np.float64") and len(a) == 1:
+                    return a[0]
+                return NotImplemented
+
+            it.call_hook = hook
+            attrs = dict(flags)
+            attrs.update({"IS_GLOBAL_ANALYSIS": False, "scenario_description": ""})
+            obj = Obj(cls, attrs, "self")
+            cfp = PDict({})
+            it.call_function(fn, [cfp, Path(("row",))], {}, obj)
+            return cfp
+
+        try:
+            leaves = [x for x in explore(runit, month_classes=False) if not isinstance(x[2], Abort)]
+        except Unsupported as e:
+            raise AnalysisError(f"Scenarios.{name} outside the analysed fragment: {e}")
+        if not leaves:
+            raise AnalysisError(f"Scenarios.{name}: no completing path")
+        for _, dec, cfp, it in leaves:
+            for k in range(1, last + 1):
+                got = cfp.d.get(f"{prefix}{k}")
+                src_year = min(k, 10)   # the table has ten years; year 11 repeats year 10
+                want = Rat.const(1) + it.to_rat(Path(("row", f"{column}{src_year}")))
+                try:
+                    ok = got is not None and it.to_rat(got) == want
+                except Unsupported:
+                    ok = False
+                rep.check(ok, rule, f"{name}:{prefix}{k} = 1 + row[{column}{src_year}]",
+                          f"{prefix}{k} is set to {got}, not 1 + the country row's {column}{src_year}: the option does not apply the country's "
+                          "own estimate for that year unchanged", loc=loc(SCEN, fn))
+    rep.require_min(rule, 21)
 
 
 # ------------------------------------------------------------------------------------------ key collection
